@@ -111,6 +111,7 @@ func hookRound2(c *Ctx, prop string) {
 	case "C02":
 		runPositionPair(c)
 	}
+	hookRound3(c, prop)
 }
 
 // derivesFromPred: some value on the way to v (through loads, element addresses, slices, phis, appends,
